@@ -11,8 +11,9 @@
   The hypotheses `hn` / `hwf` are the decoder's invariants: the message has an integer `n_subsets`
   and its template data hold one value list per subset; the harness checks them on every message.
   The re-encode/decode half of the property (that the encoder input produced here is packed and
-  read back value for value, compressed or not) is the coder's business (C01-C05) and is evaluated
-  on the implementation by the harness.
+  read back value for value, compressed or not) is the coder's business (C01-C05): it is composed
+  with the theorems of this file in `Props/C10Reencode.lean` (`C10_reencode_decode`, walk-level
+  coder model) and evaluated on the implementation by the harness.
 -/
 import BufrModel.Msg.Subset
 import BufrModel.Spec.SubsetSpec
